@@ -12,6 +12,43 @@ def trace_states(src):
     return snaxrun.run_passes(src, "accfg-trace-states")
 
 
+def eval_cost(body, c=1):
+    """Upper estimate of the work of the Lean driver's evaluator on a converted program: the facts are closures, `meet` evaluates
+    its left argument twice and a loop analyses its body twice, so sequences of conditionals / nested loops multiply. Programs
+    beyond EVAL_LIMIT (a handful per thousand, minutes each) are judged by the oracle only."""
+    def w(b, c):
+        for s in b:
+            c = ws(s, c)
+        return c
+
+    def ws(s, c):
+        t = s[0]
+        if t == "setup":
+            return c + 1
+        if t == "call":
+            return 1 if s[2] else c
+        if t == "if":
+            return 2 * w(s[2], c) + w(s[3], c) + 1
+        if t == "for":
+            return 2 * c + w(s[5], 2 * c + w(s[5], c)) + 1
+        return c
+
+    tot = 0
+    for s in body:
+        t = s[0]
+        if t in ("setup", "launch"):
+            tot += c
+        elif t == "if":
+            tot += eval_cost(s[2], c) + eval_cost(s[3], c)
+        elif t == "for":
+            tot += eval_cost(s[5], 2 * c + w(s[5], c))
+        c = ws(s, c)
+    return tot
+
+
+EVAL_LIMIT = 10 ** 7
+
+
 class LinksMixin:
     """case kind "links": the threading pass and the link-following inference INSIDE the model (Model/AccfgLinks.lean).
     impl: the untraced input converted to the pre-linked IR (PBlock), the REAL traced IR converted to the linked IR (LBlock,
@@ -39,6 +76,8 @@ class LinksMixin:
             cl = al.ConvL(f)
         except ac.Unsupported as e:
             return {"unmodelled": "traced: " + str(e)}
+        if eval_cost(cl.body) > EVAL_LIMIT:
+            return {"unmodelled": "evaluator cost"}
         # claim checked by the model's decidable link validation on the converted REAL IR (skipped in the class of DC07a)
         return {"P": cp.body, "L": cl.body, "infer": cl.real_inference(), "annot": ac.real_inference_at_points(cl),
                 "links_sound": None if pre else True}
@@ -76,6 +115,9 @@ class LinksMixin:
                "links_sound": i["linksSound"] if w["plain"] else None}
         if w["plain"] and not w["linksSound"]:
             out["model_error"] = "soundChkB fails on weave p for a plain program (contradicts weave_links_agree_partial)"
+        if not w.get("ranked", True) or not i.get("ranked", True):
+            # hypothesis of inferL_fuel_suffices (decidable, evaluated on the woven and on the converted real program)
+            out["model_error"] = "owner table is not ranked / closed: fuelOf is not known to suffice"
         # the same inference on the converted REAL traced IR (meaningful also when the link structures differ)
         real_l = {"infer": al.canon_states(i["infer"]), "annot": [sorted(x) if isinstance(x, list) else x for x in i["annot"]]}
         if real_l["infer"] != impl_out["infer"] or real_l["annot"] != impl_out["annot"]:
@@ -139,8 +181,10 @@ class C07(LinksMixin, Prop):
             conv = ac.Conv(f)
         except ac.Unsupported as e:
             return {"unmodelled": str(e)}  # outside the model's IR fragment: judged by the oracle only
-        points = ac.real_inference_at_points(conv)
         prog = conv.program()
+        if eval_cost(prog["body"]) > EVAL_LIMIT:
+            return {"unmodelled": "evaluator cost"}
+        points = ac.real_inference_at_points(conv)
         execs = []
         for args in ac.executions(random.Random(case["xseed"]), 6):
             tr = ac.run_func(f, args, calltag=conv.calltag, universe=conv.universe())
